@@ -53,3 +53,21 @@ C("mako.codegen:_GenerateRenderMethod.create_filter_callable",
   locals={"e": "Str", "m": "Opt[Obj[MatchG]]", "ident": "Str", "fargs": "Str", "f": "Str"},
   props=["C02"], native_skip=True,
   note="assumes mako.filters.DEFAULT_ESCAPES is not mutated at run time; the meaning of the two regular expressions is the obligation C02.regex")
+
+# ---- visitExpression: when the pipeline is applied at all (C02) ----------------------------------------
+CLASS("mako.parsetree:Expression", name="ExprNode", fields={"text": "Str", "escapes": "Str", "escapes_code": "ArgList", "lineno": "Int"})
+import contracts.printer  # noqa: start_source has its own (verified) contract there
+
+_XA = "node.escapes_code.args"
+_XA1 = "ite(self.compiler.pagetag is not None, content(%s) + content(%s), content(%s))" % (_P, _XA, _XA)
+_XEFF = ("ite('n' in content(%s), content(%s), ite(len(content(%s)) > 0 and 'n' not in %s, content(%s) + %s, %s))" % (_XA, _XA, _D, _XA1, _D, _XA1, _XA1))
+
+C("mako.codegen:_GenerateRenderMethod.visitExpression",
+  params={"self": "GenRM", "node": "ExprNode"},
+  requires=[("escapes-text-and-parsed-list-agree", "(len(node.escapes) > 0) == (len(content(%s)) > 0)" % _XA),
+            ("page-filter-list-present", "implies(self.compiler.pagetag is not None, self.compiler.pagetag.filter_args is not None and self.compiler.pagetag.filter_args.args is not None)")],
+  modifies=["G.emit_n", "G.emit_last", "G.emit_prev", "G.dedents", "self.printer.source_map"],
+  ensures=[("one-line", "G.emit_n == old(G.emit_n) + 1"),
+           ("the expression is written through the whole pipeline D, P, local filters - whichever of them are empty",
+            "G.emit_last == '__M_writer(%%s)' %% wrap_filters(%s, len(%s), node.text)" % (_XEFF, _XEFF))],
+  raises={"*": {}}, props=["C02"], native_skip=True)
